@@ -6,6 +6,26 @@ VERIF = Path(__file__).resolve().parent.parent
 ALL = [f"C{i:02d}" for i in range(1, 20)]
 
 CLAIMED = {
+    "C04": dict(
+        text="core/Build.tla is the state machine of connection operations (connect by call / assignment / connect(), replace, disconnect, "
+             "reading a port reference). TLC enumerates every history (MC_Build: 2 scalar + 2 bundle-valued ports, ten connectable kinds as "
+             "replaced and replacing value, canonical completing suffix; exhaustive depth 2-3, simulate to 6) and emits it with the spec's "
+             "final mapping. Each history is replayed on real instances: Trace_Build validates every step (conns dictionaries and every "
+             "connectable's back-reference set equal the spec mapping and its inverse; refusals exactly where Build says), and Trace_Conn "
+             "requires the exported package to denote the design given by the spec's FINAL mapping.",
+        note="Trusted: harness/props/c04.py driver/projector (reads the private back-reference sets), builder, TLC. Arrays and Pairs are "
+             "exercised by C01's universes, not by the history model yet.",
+        ref="6 C04", technique="TLA+ state machine (Build) + TLC-enumerated histories replayed + TLC trace validation + denotational final check"),
+    "C06": dict(
+        text="Package!PkgFaults states closure and self-consistency of a vlsir Package (unique names, definition before use, ports name "
+             "declared signals, every instance reference resolves to a package module / declared external module / a primitive of the "
+             "spec's table, each target port connected exactly once, every connection target inside its signal and of the port's width). "
+             "Corpus: packages of the valid universe designs, every package exported by the seven repository examples (captured with the "
+             "export hook), built-in generators over their parameter ranges. TLC (Trace_Pkg) decides; acceptance by from_proto and the "
+             "spice/spectre netlisters is logged and required.",
+        note="Trusted: protobuf->JSON projector, TLC; netlister acceptance is not demanded of packages with technology-independent "
+             "hdl21.primitives devices (vlsirtools refuses those by design). PDK-compiled designs join the corpus through C15.",
+        ref="6 C06", technique="TLA+ well-formedness predicate (Package!PkgWF) evaluated by TLC on recorded packages"),
     "C01": dict(
         text="core/Design.tla defines what a source design denotes (leaf devices; partition of leaf-terminal and top-port bits into nets) "
              "from the language semantics alone, core/Package.tla what an exported package denotes as the VLSIR netlisters read it, "
